@@ -509,5 +509,31 @@ def ddmin(case, bad, max_trials=200):
 
 TECHNIQUE = ("Lean 4 theorems (binary-search loop invariant, representation invariants preserved by every operation, refinement "
              "to K -> Option V for an arbitrary hash function) + differential correspondence check + python dict/set reference")
-LEVEL_TEXT = "TODO"
-LEVEL_NOTE = "TODO"
+LEVEL_TEXT = ("Proved in Lean 4, for ALL inputs and histories, about the executable models the driver runs: (1) Map::indexOf, transcribed "
+              "literally (do-while, first probe at n-1, encoded result), terminates, reads only inside the array and returns the index of the "
+              "key or -(p)-1 with p the unique insertion point, on every strictly ascending array and every key, for any comparison that is "
+              "a strict total order (compare<int> and strcmp-on-bytes are proved to be such); (2) every Map/Dic operation (set, operator[], "
+              "m[k]=v, remove, clear, add/merge, find/has/get) keeps the array strictly ascending and acts on the abstract map K->Option V as "
+              "the finite-map operation, for every history (map_refines_finmap); keys()/enumeration strictly ascending, each key once, "
+              "length() = number of distinct keys; == iff equal abstract maps; (3) HashMap/HashDic for an ARBITRARY hash function and any "
+              "positive table size: the invariant (every key in bucket binOf(key), chains duplicate-free, count = number of entries) is "
+              "preserved by operator[], set, remove (repaired d4d2172), clear, rehash and dup/clone; find/has/get walking one chain equal a "
+              "linear search of the whole enumeration; rehash preserves the abstract map; every history refines K->Option V "
+              "(hashmap_refines_finmap); the enumeration lists each entry exactly once and tables with equal contents enumerate permutations "
+              "of each other; operator== (repaired 12cf1de) iff equal abstract maps, whatever the insertion order, bucket sharing or growth; "
+              "(4) Set: insert/remove/Set(Array)/<</+/&/-/contains/containsAny/array()/== are exactly the set operations on membership; "
+              "(5) the pre-fix remove and == violate the specification (counterexample theorems with concrete witnesses, replayed from "
+              "corpus/C02). The models are tied to the current /repo sources by the correspondence check K on every run (histories over 6 "
+              "container types, colliding keys, growth across 225 and 1793 entries, tables from 1 bucket up, sizes 0..6 probed exhaustively), "
+              "under ASan/LSan, plus an independent python dict/set simulation of every history judged on the implementation alone.")
+LEVEL_NOTE = ("Tie is K only (no generated Lean): a code path no generated history reaches is tied to the model only by reading. "
+              "Validated by K only, not theorems: the concrete hash functions hash(int)/hash(String) and nextPoT (the theorems hold for "
+              "every hash function and every positive table size, so their values cannot affect correctness, only bucket placement); the "
+              "growth constants 7/8, x8, 280000 (rehash_preserves_abs holds for whatever condition triggers it); Array<T>::insert/remove/"
+              "clone as list operations (C01); chain nodes' new/delete and the LeakSanitizer verdict; const operator[] default objects; the "
+              "foreach/Enumerator plumbing. Equality/merge theorems for hash maps assume both tables use the same hash function (true for "
+              "one key type). Handles shared between two HashMap objects (copy without clone) are outside C02's quantifier and are not "
+              "generated (rehash through one handle leaves the other stale: DESIGN.md section 6, noted, not a C02 violation). String keys "
+              "are NUL-free (strcmp vs memcmp disagree on embedded NUL; C03 territory). No statement is left partial; "
+              "hashmap_remove_head_counterexample / hashmap_eq_order_counterexample are about transcriptions of the pre-fix code kept in "
+              "AslProps/C02.lean for the record.")
